@@ -60,7 +60,8 @@ F_PEC = {"pec_excitation": ("add_pec_excitation_rate", "excitation", "get_pec_ex
 _fl = st.one_of(
     st.floats(allow_nan=False, allow_infinity=False, width=64),
     st.floats(1e-30, 1e30),
-    st.sampled_from([0.0, -0.0, 5e-324, 2.2250738585072014e-308, 1.7976931348623157e308, 1e21, 1.1, 0.1, 1 / 3]))
+    st.sampled_from([0.0, -0.0, 5e-324, 2.2250738585072014e-308, 1.7976931348623157e308, 1e21, 1.1, 0.1, 1 / 3]),
+    st.sampled_from([0.0, 1.0, 2.5, float("inf"), float("-inf"), float("nan")]))     # non-finite entries are stored as they are
 
 
 def _vec(n):
@@ -115,6 +116,28 @@ def beam_data(draw):
 
 
 _SFORMS = ["float", "float", "f64", "f32", "i64", "0d", "int"]
+
+# Every file opened for writing while a repository history runs is recorded (Python audit event "open"): a file that is created
+# somewhere else and moved into the repository afterwards leaves no trace in a directory scan, but it was created outside the
+# repository path all the same.
+import sys as _sys  # noqa: E402
+
+_WATCH = {"on": False, "writes": []}
+
+
+def _audit(event, args):
+    if event == "open" and _WATCH["on"]:
+        try:
+            path, mode, flags = args[0], args[1], args[2]
+            wr = (isinstance(mode, str) and any(c in mode for c in "wax+")) or \
+                 (isinstance(flags, int) and flags & (os.O_WRONLY | os.O_RDWR | os.O_CREAT | os.O_APPEND))
+            if wr and isinstance(path, (str, bytes)):
+                _WATCH["writes"].append(os.fsdecode(path))
+        except Exception:  # noqa
+            pass
+
+
+_sys.addaudithook(_audit)
 
 
 def _scalar(v, sform):
@@ -206,6 +229,8 @@ class Repo:
             os.makedirs(self.path)
         if parts != ["repo"]:
             ctx.label("repo-path:unusual")
+        _WATCH["writes"] = []
+        _WATCH["on"] = True
         self.model = {}      # key tuple -> dict of expected arrays / floats
         self.files = {}      # relative file -> set of keys stored in it
         self.n_over = 0
@@ -215,6 +240,7 @@ class Repo:
         self.touched = []
 
     def close(self):
+        _WATCH["on"] = False
         shutil.rmtree(self.top, ignore_errors=True)
 
     # ---- helpers
@@ -815,6 +841,15 @@ class Repo:
         for root, dirs, files in os.walk(self.path):
             for f in files:
                 found.add(os.path.relpath(os.path.join(root, f), self.path))
+        allowed = (os.path.abspath(self.path) + os.sep, "/dev/", os.path.dirname(os.path.abspath(os.environ.get("VERIF_JOURNAL", "/nonexistent/x"))) + os.sep,
+                   os.path.abspath(_SCRATCH_HOME) + os.sep, tempfile.gettempdir() + os.sep + "vf_c06_adas_")
+        for w in _WATCH["writes"]:
+            aw = os.path.abspath(w)
+            if "/.hypothesis/" in aw:        # Hypothesis's own constants cache
+                continue
+            if not aw.startswith(allowed):
+                self.ctx.fail("files", "file %r was opened for writing outside the repository path %r" % (w, self.path))
+        _WATCH["writes"] = []
         for root, dirs, files in os.walk(self.top):
             for f in files:
                 full = os.path.join(root, f)
